@@ -51,7 +51,7 @@ def _ops():
     )
     lines = gen.with_ack(gen.weighted((6, missing_kinds), (2, present), (2, never))).map(lambda l: ["rx", l])
     pause = st.sampled_from((1, 59, 61, 600, 3600, 86400)).map(lambda t: ["sleep", t])
-    events = st.sampled_from((["save"], ["reload"], ["session"]))
+    events = st.sampled_from((["save"], ["reload"], ["session"], ["read_error", "read"], ["read_error", "failed"]))
     return st.lists(gen.weighted((20, lines), (2, pause), (1, events)), min_size=8, max_size=30)
 
 
@@ -70,7 +70,7 @@ BETWEEN = (
     ["rx", "5;255;0;0;17;2.1\n"], ["rx", "5;255;0;1;18;1.4\n"], ["rx", "5;255;0;0;0;\n"], ["rx", "6;255;0;0;17;2.1\n"], ["rx", "0;255;0;0;18;2.1\n"], ["rx", "0;255;0;0;18;2.2.0\n"],
     ["rx", "0;255;3;0;2;2.0.1\n"], ["rx", "0;255;3;1;2;2.2\n"], ["rx", "5;1;0;0;6;child\n"], ["rx", "5;255;3;0;6;0\n"], ["rx", "5;255;3;0;1;\n"], ["rx", "5;255;3;0;18;\n"],
     ["rx", "6;1;1;0;0;1\n"], ["rx", "255;255;3;0;3;\n"], ["rx", "5;7;3;0;3;\n"], ["rx", "0;255;3;0;14;ready\n"], ["rx", "0;255;3;0;9;log\n"], ["rx", "junk\n"],
-    ["rx", "5;255;3;0;19;\n"], ["rx", "5;255;3;0;21;\n"], ["session"], ["sleep", 61], ["sleep", 86400], ["install", 5], ["install", 6], ["save"], ["reload"],
+    ["rx", "5;255;3;0;19;\n"], ["rx", "5;255;3;0;21;\n"], ["session"], ["sleep", 61], ["sleep", 86400], ["install", 5], ["install", 6], ["save"], ["reload"], ["read_error", "read"], ["read_error", "failed"], ["read_error", "base"],
 )
 
 
@@ -85,6 +85,16 @@ def enumerate_cases(tier: str):
                                "ops": [["rx", first], between, ["rx", second], ["rx", "6;9;1;0;0;1\n"]]}
 
 
+    # a request whose write hangs until the application's receive timeout cancels it was never sent either
+    for version in ("2.0", "2.1", "2.2"):
+        for registry in ({}, {"5": {"children": {"0": {"child_type": 6}}}}):
+            for first in MISSING_KINDS:
+                for hangs in ([0], [0, 1], [1]):
+                    for mode in ("fresh", "persistent"):
+                        yield {"version": version, "registry": registry, "fail_requests": [], "hang_requests": hangs, "rx_timeout": 30, "listen_mode": mode,
+                               "ops": [["rx", first], ["rx", MISSING_KINDS[0]], ["rx", "5;255;0;0;17;2.1\n"], ["rx", MISSING_KINDS[4] if not registry else "5;9;1;0;0;1\n"], ["rx", first], ["rx", MISSING_KINDS[0]]]}
+
+
 def strategy(tier: str):
     return st.fixed_dictionaries(
         {
@@ -94,6 +104,8 @@ def strategy(tier: str):
             "listen_mode": st.sampled_from(("fresh", "persistent")),
             "debug_log": st.sampled_from((False, False, True)),
             "fail_requests": st.one_of(st.just([]), st.lists(st.integers(0, 6), max_size=3, unique=True).map(sorted)),
+            "hang_requests": st.one_of(st.just([]), st.just([]), st.lists(st.integers(0, 6), max_size=2, unique=True).map(sorted)),
+            "rx_timeout": st.just(30),
         }
     )
 
@@ -101,6 +113,8 @@ def strategy(tier: str):
 def run_case(case: dict) -> Outcome:
     fails = set(case.get("fail_requests", []))
     state = {"req_attempts": 0, "failed": 0, "retry_after_fail": False, "failed_nodes": set(), "rearm": False, "presented": set(), "episodes": {}}
+
+    hangs = set(case.get("hang_requests", []))
 
     def setup(gateway, transport, model):
         def fail_pred(line: str) -> bool:
@@ -110,14 +124,26 @@ def run_case(case: dict) -> Outcome:
             state["req_attempts"] += 1
             return idx in fails
 
+        def hang_pred(line: str) -> bool:
+            # this request's write never completes; the application's receive timeout cancels it
+            if not drive.PRESREQ.match(line) or state["req_attempts"] not in hangs:
+                return False
+            state["req_attempts"] += 1
+            state["hung"] = state.get("hung", 0) + 1
+            return True
+
         transport.fail_pred = fail_pred
+        if hangs:
+            transport.hang_pred = hang_pred
 
     def fault_step(rec, model):
         pred = rec.pred
         failed_lines = [l for _s, l, f in rec.attempts if f]
         if pred.presreq_node is None or failed_lines != [f"{pred.presreq_node};255;3;0;19;\n"]:
             return ("presreq-unexpected-attempt", f"attempted {failed_lines!r} although no request was due (outstanding={sorted(model.outstanding)})")
-        if rec.outcome == "leak" or rec.outcome == "ok":
+        if rec.outcome == "cancelled":
+            pass  # the receive was abandoned while the request's write hung: nothing was written
+        elif rec.outcome == "leak" or rec.outcome == "ok":
             return ("failed-request-not-reported", f"request write failed but the step gave {rec.outcome}")
         others = [w for w in rec.writes if drive.PRESREQ.match(w)]
         if others:
